@@ -47,9 +47,9 @@ var hashes = []struct {
 }
 
 // C20 (node table): behaves as a map from keys to pointers for every hash function.
-func TestC20Table(t *testing.T) {
-	st := ev.Get("C20", "TestC20Table")
-	rapid.Check(t, func(t *rapid.T) {
+func makePropC20Table(test string) func(t *rapid.T) {
+	st := ev.Get("C20", test)
+	return func(t *rapid.T) {
 		sched.SeedRand(t)
 		h := hashes[rapid.IntRange(0, len(hashes)-1).Draw(t, "hash")]
 		nt := nodetable.New(h.fn, keyEq)
@@ -155,7 +155,11 @@ func TestC20Table(t *testing.T) {
 		}
 		st.Case("hash="+h.name+" "+strings.Join(log, "; "), nontrivial, "hash-"+h.name)
 		_ = pins
-	})
+	}
+}
+
+func TestC20Table(t *testing.T) {
+	rapid.Check(t, makePropC20Table("TestC20Table"))
 }
 
 // C20 (node list): Add at head, Remove of the first node with an equal key, Keys in list order.
@@ -276,4 +280,9 @@ func TestC20List(t *testing.T) {
 		}
 		st.Case(strings.Join(log, "; "), len(log) >= 4 && (readds > 0 || dup))
 	})
+}
+
+// FuzzC20Table drives the node table property with coverage-guided native fuzzing (thorough tier).
+func FuzzC20Table(f *testing.F) {
+	f.Fuzz(rapid.MakeFuzz(makePropC20Table("FuzzC20Table")))
 }
